@@ -195,3 +195,99 @@ def jac_chunk_loop():
 
 
 LOOPS[(f"{TR}.jac.Jac._differentiate", 0)] = jac_chunk_loop()
+
+
+# ----------------------------------------------------------------------------- Aggregate: _disunite loop
+
+
+def disunite_loop():
+    """_AggregateMatrices._disunite, loop 0:  for key, M in jacobian_matrices.items(): end = start + ncols(M);
+    gradient_vectors[key] = united[start:end]; start = end.
+    Invariant at i: start = offC(i); gradient_vectors has exactly the first i keys (in order), and key j maps to
+    united[offC(j):offC(j+1)]."""
+
+    def cols(cx, frame):
+        it = _FakeInterp(cx)
+        jm = frame.vars["jacobian_matrices"]
+        m = P.to_symmap(it, jm.payload if isinstance(jm, SymObj) else jm)
+        lens = V.SymSeq(m.keys.length, lambda j: m.get(m.keys.get(j).ref).shape.lead[1])
+        return m, P.prefix_sum(it, lens)
+
+    def havoc(cx, frame, i):
+        frame.vars["start"] = cx.fresh_int("start")
+        m, ps = cols(cx, frame)
+        gvf = cx.fresh_func("gv", TenS, IntS, RealS)
+        gvlen = cx.fresh_func("gvlen", TenS, IntS)
+        keys = V.SymSeq(lift(i), m.keys.get, distinct=True)
+        keys.index_of = P.seq_index_fn(_FakeInterp(cx), m.keys)
+        frame.vars["gradient_vectors"] = V.SymMap(keys, lambda t: LTen(V.Shape([gvlen(t)]), lambda idx, t=t: gvf(t, idx[0]), fresh=False))
+
+    def inv(cx, frame, i):
+        it = _FakeInterp(cx)
+        m, ps = cols(cx, frame)
+        gv = frame.vars["gradient_vectors"]
+        united = frame.vars["united_gradient_vector"]
+        facts = [("start", lift(frame.vars["start"]) == ps.off(i))]
+        if isinstance(gv, dict):
+            facts.append(("empty_at_start", z3.And(len(gv) == 0, lift(i) == 0)))
+            return facts
+        j, c = z3.Int("j!q"), z3.Int("c!q")
+        facts.append(("n_keys", lift(gv.keys.length) == lift(i)))
+        facts.append(("keys_in_order", z3.ForAll([j], z3.Implies(z3.And(0 <= j, j < lift(i)), gv.keys.get(j).ref == m.keys.get(j).ref))))
+        kj = m.keys.get(j).ref
+        val = gv.get(kj)
+        facts.append(("slice_len", z3.ForAll([j], z3.Implies(z3.And(0 <= j, j < lift(i)),
+                                                             lift(val.shape.lead[0]) == ps.off(j + 1) - ps.off(j)))))
+        facts.append(("slice_content", z3.ForAll([j, c], z3.Implies(z3.And(0 <= j, j < lift(i), 0 <= c, c < ps.off(j + 1) - ps.off(j)),
+                                                                    val.elem([c]) == united.elem([ps.off(j) + c])))))
+        return facts
+    return LoopSpec(havoc, inv)
+
+
+LOOPS[(f"{TR}.aggregate._AggregateMatrices._disunite", 0)] = disunite_loop()
+
+
+# ----------------------------------------------------------------------------- Accumulate: heap loop
+
+
+def accumulate_loop():
+    """Accumulate._compute, loop 1 (after the up-front check loop):  for key in gradients.keys():
+        key.grad += g[key]  if key.grad exists  else  key.grad = g[key].clone()
+    Invariant at i: exactly the first i keys have been updated: grad'(k) = grad0(k) (+) g[k]; every other tensor's
+    .grad is as at loop entry."""
+
+    def keys_and_g(cx, frame):
+        it = _FakeInterp(cx)
+        g = frame.vars["gradients"]
+        m = P.to_symmap(it, g.payload if isinstance(g, SymObj) else g)
+        return m
+
+    def havoc(cx, frame, i):
+        cx.ghost["heap"].havoc(cx)
+
+    def inv(cx, frame, i):
+        it = _FakeInterp(cx)
+        heap = cx.ghost["heap"]
+        if "__h0__" not in frame.vars:
+            frame.vars["__h0__"] = heap.snapshot()
+        has0, val0, stor0 = frame.vars["__h0__"]
+        m = keys_and_g(cx, frame)
+        idx = P.seq_index_fn(it, m.keys)
+        dom = P.map_dom(it, m)
+        t, c = z3.Const("t!q", TenS), z3.Int("c!q")
+        done = z3.And(dom(t), idx(t) < lift(i))
+        upd = z3.If(has0(t), val0(t, c), ZERO) + m.get(t).elem([c])
+        facts = [
+            ("has", z3.ForAll([t], heap.has_f(t) == z3.If(done, True, has0(t)))),
+            ("val", z3.ForAll([t, c], heap.val_f(t, c) == z3.If(done, upd, val0(t, c)))),
+            ("storage_kept_when_existing", z3.ForAll([t], z3.Implies(z3.Or(z3.Not(done), has0(t)), heap.stor_f(t) == stor0(t)))),
+        ]
+        return facts
+    return LoopSpec(havoc, inv)
+
+
+LOOPS[(f"{TR}.accumulate.Accumulate._compute", 1)] = accumulate_loop()
+
+
+def expects_grad(ref):
+    return z3.And(U("requires_grad", z3.BoolSort(), ref), z3.Or(U("is_leaf", z3.BoolSort(), ref), U("retains_grad", z3.BoolSort(), ref)))
